@@ -65,16 +65,24 @@ def stepTags (t : TState) (i : Instr) (ptrSlots : List Nat) : TState :=
     setR t dst (aluTag w op (rtag dst) (otag src))
   | .endian _ _ dst => setR t dst (if rtag dst = .clean then .clean else .dirty)
   | .lddw dst _ => setR t dst .clean
-  | .ldabs _ _ => setR t 0 .clean
+  | .ldabs w imm =>
+    -- a packet-relative load that lands in the private stack depends on where the stack happens to be: outside the claim
+    let a := t.s.mem.mem.base + imm.toNat
+    match stackRange t a w with
+    | some _ => setR (bad t) 0 .dirty
+    | none => setR t 0 .clean
   | .ldind w src imm =>
-    -- with an empty packet the base is null: an index register holding a stack address addresses that stack byte
-    if t.s.mem.mem.bytes.size = 0 ∧ rtag src = .stk then
-      let a := (((t.s.reg[src]?).getD 0) + imm.setWidth 64).toNat
+    let a := (BitVec.ofNat 64 t.s.mem.mem.base + ((t.s.reg[src]?).getD 0) + imm.setWidth 64).toNat
+    if rtag src = .clean then
+      match stackRange t a w with
+      | some _ => setR (bad t) 0 .dirty
+      | none => setR t 0 .clean
+    else if t.s.mem.mem.bytes.size = 0 ∧ t.s.mem.mem.base = 0 ∧ rtag src = .stk then
+      -- with an empty packet the base is null: an index register holding a stack address addresses that stack byte
       match stackRange t a w with
       | some o => setR { t with f16 := t.f16 || inFn } 0 (combine ((List.range w).map fun k => t.st.getD (o + k) .dirty) w)
-      | none => setR (bad t) 0 .clean
-    else
-      let t := if rtag src ≠ .clean then bad t else t; setR t 0 .clean
+      | none => setR (bad t) 0 .dirty
+    else setR (bad t) 0 .dirty
   | .ldx w dst src off =>
     let a := ea src off
     let t := if rtag src = .dirty then bad t else t
